@@ -16,6 +16,7 @@ pub fn defs() -> Vec<ScenDef> {
     vec![
         d("spawn", spawn as fn(&mut Exec) -> Res, false, None),
         d("spawnp", spawn, false, Some(4)),
+        d("coldpin", coldpin, false, None),
         d("park", park, false, None),
         d("tmr", tmr, false, None),
         d("tmrmix", tmrmix, false, None),
@@ -244,6 +245,73 @@ fn spawn(x: &mut Exec) -> Res {
         }
     }
     x.passive_actor("summary").note("migrated", migrated as u64, n as u64);
+    Ok(())
+}
+
+/// meant for the first executions of a fresh process (driver: fresh-process mode): workers that have never been woken.
+/// A coroutine hands one pinned child (`Builder::id(k)`) to every worker, a plain thread does the same, a child hands
+/// grand-children on: every one runs exactly once and join() tells its value.
+fn coldpin(x: &mut Exec) -> Res {
+    let workers = x.workers;
+    let ran: Arc<Vec<AtomicUsize>> = Arc::new((0..workers * 3).map(|_| AtomicUsize::new(0)).collect());
+    let errs = Arc::new(std::sync::Mutex::new(Vec::<String>::new()));
+    let from_co_first = x.rng.chance(2, 3);
+    let order: Vec<bool> = if from_co_first { vec![true, false] } else { vec![false, true] };
+    for (round, from_co) in order.into_iter().enumerate() {
+        let (ran, errs) = (ran.clone(), errs.clone());
+        let grand = round == 0;
+        x.spawn(&format!("parent{}", round), from_co, move |a| {
+            let mut hs = vec![];
+            for k in 0..workers {
+                let slot = round * workers + k;
+                let ran2 = ran.clone();
+                let h = unsafe {
+                    coroutine::Builder::new().id(k).spawn(move || {
+                        ran2[slot].fetch_add(1, SeqCst);
+                        // a grand-child for the next worker, from a pinned coroutine
+                        if grand {
+                            let ran3 = ran2.clone();
+                            let g = coroutine::Builder::new().id((k + 1) % workers).spawn(move || {
+                                ran3[2 * workers + k].fetch_add(1, SeqCst);
+                                k
+                            });
+                            if let Ok(g) = g {
+                                let _ = g.join();
+                            }
+                        }
+                        slot * 10
+                    })
+                };
+                match h {
+                    Ok(h) => hs.push((slot, h)),
+                    Err(e) => errs.lock().unwrap().push(format!("Builder::id({}).spawn failed: {:?}", k, e)),
+                }
+            }
+            for (slot, h) in hs {
+                a.call("join", slot as u64);
+                match h.join() {
+                    Ok(v) if v == slot * 10 => {}
+                    other => errs.lock().unwrap().push(format!("join() of the child pinned to worker {} returned {:?}", slot % workers, other.map_err(|_| "panic"))),
+                }
+                a.ret("join", slot as u64, 0);
+            }
+        });
+        // one round after the other: the thread round wakes every worker, the coroutine round must manage on its own
+        x.desc = format!("pinned children for every one of {} workers, round {} from a {}", workers, round, if from_co { "coroutine" } else { "thread" });
+        x.wait_all()?;
+    }
+    x.desc = format!("pinned children for every one of {} workers from a coroutine and from a thread (first: {}), grand-children from the pinned ones", workers, if from_co_first { "coroutine" } else { "thread" });
+    x.wait_all()?;
+    if let Some(e) = errs.lock().unwrap().first() {
+        return viol(format!("pinned spawn: {}", e));
+    }
+    for (i, r) in ran.iter().enumerate() {
+        let n = r.load(SeqCst);
+        let want = if i < 2 * workers || from_co_first || true { 1 } else { 0 };
+        if n != want {
+            return viol(format!("pinned spawn: child #{} ran {} times", i, n));
+        }
+    }
     Ok(())
 }
 
